@@ -327,6 +327,7 @@ func (fs *memFS) OpenFile(ctx context.Context, name string, flag int, perm os.Fi
 		n:                n,
 		nameSnapshot:     frag,
 		childrenSnapshot: children,
+		accessMode:       flag & (os.O_RDONLY | os.O_WRONLY | os.O_RDWR),
 	}, nil
 }
 
@@ -499,6 +500,9 @@ type memFile struct {
 	n                *memFSNode
 	nameSnapshot     string
 	childrenSnapshot []os.FileInfo
+	// accessMode is the os.O_RDONLY, os.O_WRONLY or os.O_RDWR that the file
+	// was opened with.
+	accessMode int
 	// pos is protected by n.mu.
 	pos int
 }
@@ -514,6 +518,9 @@ func (f *memFile) Close() error {
 }
 
 func (f *memFile) Read(p []byte) (int, error) {
+	if f.accessMode == os.O_WRONLY {
+		return 0, os.ErrPermission
+	}
 	f.n.mu.Lock()
 	defer f.n.mu.Unlock()
 	if f.n.mode.IsDir() {
@@ -581,6 +588,9 @@ func (f *memFile) Stat() (os.FileInfo, error) {
 }
 
 func (f *memFile) Write(p []byte) (int, error) {
+	if f.accessMode == os.O_RDONLY {
+		return 0, os.ErrPermission
+	}
 	lenp := len(p)
 	f.n.mu.Lock()
 	defer f.n.mu.Unlock()
